@@ -8,6 +8,7 @@ from slicer import Slice
 import gcr
 from gcr import posit_arg, run_cells
 from quire_common import *
+from fractions import Fraction
 
 LEVEL = 'other'
 
@@ -244,6 +245,96 @@ def dependence(ctx, prog, q):
     return n
 
 
+FRAC_BITS = {'Q8E0': 12, 'Q16E1': 56, 'Q32E2': 240}
+
+
+def sequence_probes(ctx, prog, q):
+    """specification-critical accumulate sequences on singleton cells: exact products, cancellation, ties with a sticky bit at the
+    limb / window boundaries; after every sequence the bit image must be the exact sum in fixed point and to_posit its single rounding"""
+    import probes
+    import spec as S
+    from fractions import Fraction
+    pty = q.pty
+    p = pty.posit
+    P = pty.tykey
+    add = find_assign_impl(prog, q, 'core::ops::AddAssign', '(%s, %s)' % (P, P))
+    sub = find_assign_impl(prog, q, 'core::ops::SubAssign', '(%s, %s)' % (P, P))
+    tp = prog.inherent(q.tykey, 'to_posit')
+    if not (add and sub and tp):
+        return 0
+    total_bits = sum(b for b, _ in q.fields)
+    fb = FRAC_BITS[q.name]
+    vals = [v for v in probes.small_posit_probes(pty) if v not in (0, pty.nar)]
+    one = pty.one
+    seqs = []
+    for a in vals[::2]:
+        for b in vals[1::3]:
+            seqs.append([('+', a, b)])
+            seqs.append([('+', a, b), ('-', b, a)])                       # exact cancellation
+            seqs.append([('+', a, b), ('+', one, one)])
+    # ties at 1 with a sticky bit further down (half an ulp of 1.0 is 2^-(fraction bits + 1))
+    fbits1 = pty.bits - 3 - pty.es          # fraction bits of values in [1, 2)
+    h = fbits1 + 1
+    if h % 2 == 0:
+        hx = p.encode(Fraction(1, 2 ** (h // 2)))
+        stickies = [s_ for s_ in (h + 2, h + 4, 2 * h, 2 * h + 8, fb - 2, fb) if s_ % 2 == 0 and s_ <= fb]
+        for s_ in stickies:
+            sx = p.encode(Fraction(1, 2 ** (s_ // 2)))
+            if p.decode(sx) != Fraction(1, 2 ** (s_ // 2)):
+                continue
+            seqs.append([('+', one, one), ('+', hx, hx), ('+', sx, sx)])
+            seqs.append([('+', one, one), ('+', hx, hx), ('-', sx, sx)])
+            seqs.append([('-', one, one), ('-', hx, hx), ('-', sx, sx)])
+        seqs.append([('+', one, one), ('+', hx, hx)])
+        seqs.append([('+', one + 1, one), ('+', hx, hx)])
+    # near maxpos / minpos
+    big = p.encode(Fraction(2) ** ((pty.bits - 2) * (1 << pty.es) // 2 - 1))
+    seqs.append([('+', big, big), ('+', 1, one)])
+    seqs.append([('+', 1, 1)])
+    seqs.append([('+', 1, 1), ('+', 1, 1), ('-', 1, 1)])
+    I = Interp(prog, max_steps=400000)
+    n = 0
+    lim = 2 ** (total_bits - 1)
+    for seq in seqs:
+        st = q.state(q.zero_cell())
+        ref = self_ref(st, True)
+        exact = Fraction(0)
+        ok = True
+        for op, a, b in seq:
+            pa, pb = p.decode(a), p.decode(b)
+            exact += pa * pb if op == '+' else -(pa * pb)
+            out = I.run(add if op == '+' else sub, [ref, AAgg('(tuple)', [posit_arg(pty, a, a, 0), posit_arg(pty, b, b, 1)])])
+            if out.kind != 'return':
+                ctx.finding('QSEQ', q.name, 'seq=' + str(seq).replace(' ', ''), 'accumulate sequence does not return: %s %s at %s' % (out.kind, out.value, out.where))
+                ok = False
+                break
+        if not ok:
+            continue
+        n += 1
+        fields = ref.frame.locals[0].fields
+        if not all(isinstance(f, AInt) and f.is_const() for f in fields):
+            ctx.count('sequence_undecided')
+            continue
+        image = 0
+        for f, (b, _) in zip(fields, q.fields):
+            image = (image << b) | f.uval()
+        scaled = exact * (2 ** fb)
+        if scaled.denominator != 1 or not (-lim < scaled < lim):
+            continue   # outside the quire's exact range: nothing claimed
+        want_image = int(scaled) & ((1 << total_bits) - 1)
+        if image != want_image:
+            ctx.finding('QSEQ', q.name, 'image:' + str(seq).replace(' ', ''), 'after %s the accumulator holds %#x, the exact sum %s is %#x in fixed point' % (seq, image, exact, want_image))
+            continue
+        out = I.run(tp, [self_ref(ref.frame.locals[0])])
+        got = gcr.describe(out.value) if out.kind == 'return' else (out.kind,)
+        want = p.encode(exact)
+        if got != ('const', want):
+            ctx.finding('QSEQ', q.name, 'round:' + str(seq).replace(' ', ''), 'after %s (exact sum %s) to_posit gives %s, the single posit rounding is %#x' % (seq, exact, got, want))
+        else:
+            ctx.sample({'rule': 'QSEQ', 'quire': q.name, 'sequence': str(seq), 'exact_sum': str(exact), 'to_posit': hex(want)}, limit=14)
+    return n
+
+
 def run(ctx):
     prog = ctx.prog('default')
     ctx.rules += ['QPRED: is_zero / is_nar / to_posit heads on a partition of all accumulator states',
@@ -256,6 +347,8 @@ def run(ctx):
         nacc += accumulate_heads(ctx, prog, q)
         nsp += spellings(ctx, prog, q)
         ndep += dependence(ctx, prog, q)
+        nseq = sequence_probes(ctx, prog, q)
+        ctx.count('sequence_probes', nseq)
     ctx.require('C04 predicate cells decided', npred, 500)
     ctx.require('C04 accumulate head cells decided', nacc, 300)
     ctx.require('C04 operand spellings', nsp, 48)
